@@ -278,15 +278,17 @@ func (e *FieldExpression) unwrapReference(ref *dtpb.Reference) *dtpb.String {
 func (e *FieldExpression) unwrapOneof(obj proto.Message) proto.Message {
 	message := obj.ProtoReflect()
 	descriptor := message.Descriptor()
-	if name := string(descriptor.Name()); !(strings.HasSuffix(name, "ValueX") || name == "ContainedResource") {
-		return obj
-	}
 	oneofsNum := descriptor.Oneofs().Len()
 	if oneofsNum != 1 {
 		return obj
 	}
 
 	oneof := descriptor.Oneofs().Get(0)
+	// Choice elements (value[x], deceased[x], effective[x], ...) are modelled as
+	// wrapper messages holding a single oneof named "choice".
+	if !(oneof.Name() == "choice" || descriptor.Name() == "ContainedResource") {
+		return obj
+	}
 	field := message.WhichOneof(oneof)
 	if oneof == nil || field == nil {
 		return obj
